@@ -136,6 +136,12 @@ class Inflater:
         self.d = None
         self.broken = False
 
+    def inflate_partial(self, data):
+        """What the first octets of the NEXT message's compressed payload inflate to (state untouched).
+        Any prefix of a valid deflate stream inflates to a prefix of the plaintext; raises zlib.error."""
+        d = zlib.decompressobj(-self.wbits) if (self.d is None or self.nct) else self.d.copy()
+        return d.decompress(bytes(data))
+
     def inflate(self, data):
         if self.d is None or self.nct:
             self.d = zlib.decompressobj(-self.wbits)
